@@ -7,16 +7,79 @@ from harness import core, py2lean, instantiate
 from harness.core import Outcome, f2b, b2f
 
 ID = "C19"
-LEAN_TARGETS = ["BeyondVerif.Props.C19"]
-THEOREMS = []
-LEVEL_TEXT = ""
-LEVEL_NOTE = ""
-TECHNIQUE = ""
-TRUSTED = []
-ASSUMPTIONS = []
-NOT_COVERED = []
-OPEN = []
-RULE = ""
+LEAN_TARGETS = ["BeyondVerif.Props.C19", "BeyondVerif.Props.C19Geom"]
+THEOREMS = [
+    "BeyondVerif.C19.ltan_raan_inverse",
+    "BeyondVerif.C19.ltan_raan_inverse_in_day",
+    "BeyondVerif.C19.raan_ltan_inverse",
+    "BeyondVerif.C19.raan_ltan_inverse_in_turn",
+    "BeyondVerif.C19.ltan_raan_ranges",
+    "BeyondVerif.C19.walker_count",
+    "BeyondVerif.C19.walker_count_general",
+    "BeyondVerif.C19.walker_fleet_mem",
+    "BeyondVerif.C19.walker_planes_even",
+    "BeyondVerif.C19.walker_delta_closes",
+    "BeyondVerif.C19.walker_phasing",
+    "BeyondVerif.C19.walker_inplane",
+    "BeyondVerif.C19.sso_self_inverse_a",
+    "BeyondVerif.C19.sso_self_inverse_e",
+    "BeyondVerif.C19.sso_node_rate",
+    "BeyondVerif.C19.lambert_fg",
+    "BeyondVerif.C19.lambert_fg_universal",
+    "BeyondVerif.C19.lambert_scan_exit",
+    "BeyondVerif.C19.lambert_newton_exit",
+    "BeyondVerif.C19.lambert_newton_no_break",
+    "BeyondVerif.C19.lambert_returns",
+    "BeyondVerif.C19.beta_arg_in_domain",
+    "BeyondVerif.C19.beta_range",
+    "BeyondVerif.C19.beta_is_elevation",
+    "BeyondVerif.C19.bplane_S_unit",
+    "BeyondVerif.C19.bplane_S_asymptote",
+    "BeyondVerif.C19.bplane_orthonormal",
+    "BeyondVerif.C19.bplane_B_perp",
+    "BeyondVerif.C19.bplane_B_norm",
+]
+LEVEL_TEXT = ("Lean theorems over R about formulas translated from the Python source on every run (Stumpff functions, y, F, dF, A, f/g/gdot of lambert.py; the three modes "
+              "of leo.sso; the node rate of propagators/j2.py and Infos.n; raan2ltan/ltan2raan; raan/nu of both Walker classes) and about hand-written models of the "
+              "Lambert loops, the Walker generators, beta and bplane that are tied to the code by a differential correspondence run: LTAN<->RAAN are exact inverses modulo "
+              "day / 2 pi for any sun angle; Walker fleets have t satellites, evenly spaced planes, phasing 2 pi f / t; sso is self-inverse and makes the J2 node rate equal "
+              "the solar rate; the Lambert velocities satisfy the f-g arrival relations with the universal-variable Lagrange coefficients whenever F(z) = 0 and the Newton "
+              "loop breaks only on convergence; beta is in [-pi/2, pi/2] and is the elevation above the orbit plane; S is the unit incoming-asymptote direction, (S,T,R) "
+              "orthonormal, B perpendicular to S and h with |B| = |a| sqrt(e^2-1).")
+LEVEL_NOTE = ("R -> double gap covered only by tolerance-bounded correspondence (this gap is exactly where the two open findings live: NaN from a Newton overshoot, NaN from "
+              "arcsin(1+ulp)); existence of the Lambert root, convergence of scan + Newton, and 'the universal-variable f-g map is the two-body flow' are not proved; "
+              "Lean kernel + propext/Classical.choice/Quot.sound; py2lean translator and harness trusted")
+TECHNIQUE = "Lean 4 proof (ring / field_simp / floor arithmetic / induction on loop fuel) over formulas regenerated from the Python AST; differential correspondence for loops and vector code"
+TRUSTED = [
+    "harness/py2lean.py + fn_def/Tr19 in harness/props/C19.py: translate the function bodies of lambert.py (_C,_S,_y,_F,_dF, A and f/g/gdot slices of _lambert), leo.py (three return expressions of sso), "
+    "j2.py (com, dOmega), statevector.py (Infos.n), ltan.py (raan2ltan, ltan2raan), constellation.py (raan, nu of both classes) into Generated/{LambertFn,LeoFn,LtanFn,WalkerFn}{F,R}.lean on every run",
+    "lean/templates/Mission.tpl (hand-written: 3-vector algebra, dtheta selection, scan and Newton loops, v0/v1 assembly, Walker generator loops, beta, bplane), tied by the correspondence run",
+    "numpy / libm double arithmetic vs R: tolerance 1e-9 relative (1e-7 on Lambert velocities after Newton), Walker fleets bit-exact",
+]
+ASSUMPTIONS = [
+    "theorems are over R; the implementation computes in IEEE doubles",
+    "Lambert: F(z) = 0 (resp. the convergence flag) is a hypothesis; y(z) >= 0, C(z) > 0, mu > 0, g != 0",
+    "sso: a > 0, mu > 0, re != 0, J2 != 0, e^2 != 1 (0 <= e < 1 for the eccentricity mode) and -1 <= ssoCos <= 1 (a sun-synchronous inclination exists)",
+    "the 'mean solar rate' is the constant the code uses, 2 pi / 365.256363004 d (sidereal year); the tropical-year rate differs from it by 3.9e-5 relative",
+    "B-plane: e > 1, h != 0, S not along the pole (0,0,1) (T undefined there); |a| is an input of the model (cartesian -> keplerian conversion belongs to C01)",
+    "Walker: planes != 0, planes | total for count and phasing",
+]
+NOT_COVERED = [
+    "existence and uniqueness of the Lambert root, termination of the 0.05 scan and convergence of the Newton iteration (hypotheses of the theorems; exercised by the oracle only)",
+    "that the universal-variable Lagrange coefficients are the two-body flow (classical result, C05's domain); the oracle propagates with an independent universal-variable Kepler solver and with the Kepler propagator",
+    "lamDF is the derivative of lamF (Newton would merely converge more slowly otherwise): not proved",
+    "_mean_sun_raan / _true_sun_raan themselves (the theorems hold for an arbitrary sun angle), orb2ltan, sso_frozen / frozen, beta_limit, flyby (which references undefined names and cannot run)",
+    "theta of the B-plane",
+]
+OPEN = [
+    "beta and bplane models are hand-written (vector code is outside py2lean's expression language); tied to the code by correspondence only",
+    "sso i -> a -> i and i -> e -> i round trips (modes starting from an inclination) are checked by the oracle only",
+]
+RULE = ("correspondence: random inputs from ctx.rng through the real functions and the compiled Lean model: lambert scalar functions (z<0, 0, >0; y<0 gives non-finite on both sides), "
+        "full _lambert (both directions, short/long way, small angles), sso 3 modes + J2 node rate measured through J2.propagate, ltan both types (sun angle taken from the real code), "
+        "Walker fleets bit-exact incl. planes not dividing total, beta vs Orbit references, bplane for e in [1.05,10]; non-trivial = every case; distinct = distinct request. "
+        "oracle: Lambert arrival within 10 m by independent universal-variable propagation and by the Kepler propagator through the public lambert(); sso round trips + node rate; "
+        "ltan round trips; Walker count/planes/in-plane/phasing; beta range + elevation incl. bodies on the orbit normal; bplane S/orthonormal/B perp/|B|/B x v_inf = h")
 
 MU_E = 3.986004418e14          # only used by the generators to make plausible cases; the checks read mu from the real frames
 TWO_PI = 2 * math.pi
